@@ -62,17 +62,32 @@ func (m *reqMsg) describe() string {
 	return fmt.Sprintf("RawMessage{mode %d cell %x}", m.mode, m.raw.ReprHash()[:6])
 }
 
-func (m *reqMsg) sendable() wallet.Sendable {
+func (m *reqMsg) sendable() wallet.Sendable { return m.sendableSharing(nil) }
+
+// sendableSharing builds the Sendable; with a non-nil table, requests holding the same reference cell (same
+// *ref.RCell) get the same *boc.Cell object: a caller who built a payload once and puts it into several messages.
+func (m *reqMsg) sendableSharing(shared map[*ref.RCell]*boc.Cell) wallet.Sendable {
+	cell := func(r *ref.RCell) *boc.Cell {
+		if shared == nil {
+			return wtest.MustCell(r)
+		}
+		if c, ok := shared[r]; ok {
+			return c
+		}
+		c := wtest.MustCell(r)
+		shared[r] = c
+		return c
+	}
 	to := ton.AccountID{Workchain: int32(m.dest.Workchain), Address: m.dest.Hash}
 	if m.kind == kindSimple {
 		return wallet.SimpleTransfer{Amount: tlb.Grams(m.amount), Address: to, Comment: string(m.comment), Bounceable: m.bounce}
 	}
 	x := wallet.Message{Amount: tlb.Grams(m.amount), Address: to, Bounce: m.bounce, Mode: m.mode}
 	if m.body != nil {
-		x.Body = wtest.MustCell(m.body)
+		x.Body = cell(m.body)
 	}
 	if m.code != nil {
-		x.Code, x.Data = wtest.MustCell(m.code), wtest.MustCell(m.data)
+		x.Code, x.Data = cell(m.code), cell(m.data)
 	}
 	return x
 }
@@ -874,7 +889,48 @@ var buildCheck = &core.Check{Name: "c14/build", Quick: 1400, Thorough: 60000, Fn
 	if readFirst {
 		c.Class("message cells were read before the send")
 	}
+	// the same object several times in one list: a message cell (RawSend paths) or a payload / code / data
+	// cell (Sendables) that the caller built once and uses for several messages, each with a mode (and, for
+	// Sendables, destination, amount, bounce flag) of its own. Each entry of the list is a request of its own.
+	var sharedOf []int // sharedOf[i] = j: request i reuses the cell object(s) of request j (j < i), -1: none
+	if n >= 2 && c.Weighted("same cell object twice", 3, 2) == 1 {
+		sharedOf = make([]int, n)
+		for i := range sharedOf {
+			sharedOf[i] = -1
+		}
+		for k := 1 + r.intn("shared.count", 3); k > 0; k-- {
+			i := 1 + r.intn("shared.i", n-1)
+			j := r.intn("shared.j", i)
+			mode := msgs[i].mode
+			if rawPath {
+				if mode == msgs[j].mode { // a different mode, so that the two entries are distinguishable
+					mode ^= 1 << uint(r.intn("shared.bit", 8))
+				}
+				msgs[i] = reqMsg{kind: kindRaw, raw: msgs[j].raw, mode: mode}
+			} else if msgs[j].kind == kindMessage {
+				cp := msgs[j]
+				cp.dest, cp.amount, cp.bounce, cp.mode = drawAddr(r), drawAmount(r), r.intn("bounce", 2) == 1, uint8(drawMode(r))
+				msgs[i] = cp
+			} else {
+				continue
+			}
+			sharedOf[i] = j
+			if i < len(descr) {
+				descr[i] = msgs[i].describe() + fmt.Sprintf(" (same cell object as request %d)", j)
+			}
+		}
+		c.Note("requests sharing a cell object", descr)
+	}
+	sharedCells := map[*ref.RCell]*boc.Cell{}
 	for i := range msgs {
+		if rawPath && sharedOf != nil {
+			// requests holding the same reference cell (same *ref.RCell) hand over the same *boc.Cell object
+			if mc, ok := sharedCells[msgs[i].raw]; ok {
+				raws = append(raws, wallet.RawMessage{Message: mc, Mode: msgs[i].mode})
+				c.Class("one message cell object used for several entries, different modes")
+				continue
+			}
+		}
 		if rawPath {
 			mc := wtest.MustCell(msgs[i].raw)
 			if readFirst {
@@ -883,9 +939,17 @@ var buildCheck = &core.Check{Name: "c14/build", Quick: 1400, Thorough: 60000, Fn
 				mc.ReadUint(int(r.intn("readfirst.bits", 65)))
 				mc.NextRef()
 			}
+			sharedCells[msgs[i].raw] = mc
 			raws = append(raws, wallet.RawMessage{Message: mc, Mode: msgs[i].mode})
 		} else {
-			sendables = append(sendables, msgs[i].sendable())
+			if sharedOf != nil {
+				if sharedOf[i] >= 0 && (msgs[i].body != nil || msgs[i].code != nil) {
+					c.Class("one payload / code / data cell object used in several Sendables")
+				}
+				sendables = append(sendables, msgs[i].sendableSharing(sharedCells))
+			} else {
+				sendables = append(sendables, msgs[i].sendable())
+			}
 		}
 	}
 	ctx := context.Background()
